@@ -24,6 +24,10 @@ pub enum Op {
     DirtyUntracked,
     IgnoredOnly,
     Clean,
+    /// rewrite a tracked file with identical bytes and a different mtime (stale index stat data): not a change
+    TouchUnchanged,
+    /// an empty untracked directory: git does not track directories, so not a change
+    EmptyDir,
 }
 
 pub const BRANCHES: [&str; 10] = ["develop", "feature/x", "release/1", "fé/ü", "007", "hotfix/12/a", "release-2", "Feature/API-v2", "users/a+b@c", "1.2.3"];
@@ -354,6 +358,18 @@ impl Repo {
                 std::fs::write(self.dir.join("ignored").join("x"), "i\n").map_err(|e| e.to_string())?;
             }
             Op::Clean => self.clean_tree()?,
+            Op::TouchUnchanged => {
+                let f = self.dir.join("f0.txt");
+                let bytes = std::fs::read(&f).map_err(|e| e.to_string())?;
+                std::fs::write(&f, &bytes).map_err(|e| e.to_string())?;
+                let when = std::time::SystemTime::now() + std::time::Duration::from_secs(3600 + (self.log.len() as u64 % 7) * 60);
+                std::fs::File::options().write(true).open(&f).and_then(|h| h.set_modified(when)).map_err(|e| e.to_string())?;
+                self.log.push("rewrite f0.txt with identical content, new mtime".into());
+            }
+            Op::EmptyDir => {
+                std::fs::create_dir_all(self.dir.join("emptydir").join("nested")).map_err(|e| e.to_string())?;
+                self.log.push("mkdir -p emptydir/nested".into());
+            }
         }
         Ok(())
     }
